@@ -56,6 +56,8 @@ type Engine struct {
 	strOps    map[string]bool
 	loopStates map[*loopInfo]*liState
 	oblCount map[string]int
+	allocReach map[string]string
+	pureMemo map[string]Val
 	rootArgs []Val
 	inInit bool
 	allocBase string // loop allocation base of the block being executed ("" outside loops)
@@ -71,7 +73,7 @@ type Engine struct {
 
 func newEngine(w *World) *Engine {
 	e := &Engine{w: w, sc: newScript(), comps: map[string]*component{}, lits: map[string]string{}, litFacts: map[string]bool{},
-		guard: "true", loopAllocN: map[string]int{}, tags: map[string]int{}, funcIDs: map[*ssa.Function]int{}, abstracted: map[string]int{}, assumedExt: map[string]int{},
+		guard: "true", allocReach: map[string]string{}, pureMemo: map[string]Val{}, loopAllocN: map[string]int{}, tags: map[string]int{}, funcIDs: map[*ssa.Function]int{}, abstracted: map[string]int{}, assumedExt: map[string]int{},
 		inlined: map[string]int{}, usedContracts: map[string]int{}, uf: map[string]bool{}, strOps: map[string]bool{}, loopStates: map[*loopInfo]*liState{}, oblCount: map[string]int{}, memo: map[string]execResult{}, dirty: map[string]bool{}}
 	e.sc.add("(declare-sort F64 0)")
 	e.sc.add("(declare-const f64_zero F64)")
